@@ -186,6 +186,9 @@ EqualsExactI(s, val, exp, sk, scale, eps) ==
        LET e == ScaleFloor(exp[v], sk) IN e < 0 \/ CloseI(val[v], e, scale, eps)
 \* C17: two allocations of the same system agree on every enabled variable that consumes something
 SameI(s, a, b, scale, eps) == \A v \in Consuming(s) : CloseI(a[v], b[v], scale, eps)
+\* the allocation of the selective system is the one of the non-selective system and of a fresh system holding the same
+\* activities (LmmTrace reports the two halves separately: SelFull, SelFresh)
+SelectiveEqualsFull(s, sel, full, fresh, scale, eps) == SameI(s, sel, full, scale, eps) /\ SameI(s, sel, fresh, scale, eps)
 
 \* ------------------------------------------------------------------ the API of lmm::System (sets of successors)
 EnableVar(s, v)  == LET t == [s EXCEPT !.pen[v] = s.stg[v], !.stg[v] = 0] IN TouchVar(UMSVar(t, v), v)
